@@ -20,6 +20,14 @@ fn digest(s: &str) -> String {
     format!("{h:016x}")
 }
 
+static WRITES: std::sync::Mutex<Vec<(std::path::PathBuf, String)>> = std::sync::Mutex::new(vec![]);
+
+fn record_write(point: &'static str, path: &std::path::Path, type_name: &str) {
+    if point == "written" {
+        WRITES.lock().unwrap().push((path.to_owned(), type_name.to_string()));
+    }
+}
+
 pub fn c13(args: &Args, reg: &[TypeEntry], log: &mut Log) {
     // every package asks in its own order (what is asked first must not matter); the verdict compares by id
     let exe = std::env::args().next().unwrap_or_default();
@@ -105,6 +113,94 @@ pub fn c13(args: &Args, reg: &[TypeEntry], log: &mut Log) {
                 "same_as_first_in_process": same_as_first, "differing": differing, "errors": errors.iter().take(5).collect::<Vec<_>>(),
                 "n_errors": errors.len()}));
         }
+    }
+    // over what an earlier, partial run left behind: every shared file holds the stand-alone text of one of its types
+    // (a filtered test run, or one process per test with the last writer winning). The tree is that of a clean run.
+    let groups = super::merge::shared_files(reg);
+    for (round, threads) in [1usize, 1, 4].into_iter().enumerate() {
+        clear_dir(&root);
+        verif::reset_registry();
+        std::env::remove_var("TS_RS_EXPORT_DIR");
+        let mut seeded_files = 0u64;
+        let mut order: Vec<usize> = (0..reg.len()).collect();
+        rng.shuffle(&mut order);
+        if round == 0 {
+            // the leftover of each shared file is the text of the type this very run writes into it first: a dry run of the
+            // same order (sorted, one thread - as a test runner would go) tells which one that is
+            order.sort_by_key(|&i| reg[i].id.clone());
+            WRITES.lock().unwrap().clear();
+            verif::set_probe(Some(record_write));
+            for &i in &order {
+                let _ = guarded(reg[i].export_all);
+            }
+            verif::set_probe(None);
+            let writes: Vec<(std::path::PathBuf, String)> = std::mem::take(&mut *WRITES.lock().unwrap());
+            clear_dir(&root);
+            verif::reset_registry();
+            let mut first_writer: std::collections::BTreeMap<std::path::PathBuf, (String, usize)> = Default::default();
+            for (p, ty) in &writes {
+                let e = first_writer.entry(p.clone()).or_insert((ty.clone(), 0));
+                e.1 += 1;
+            }
+            for (path, (ty, n)) in &first_writer {
+                if *n < 2 {
+                    continue;
+                }
+                let Some(e) = reg.iter().find(|e| guarded(e.ident).ok().as_deref() == Some(ty.as_str())
+                    && guarded(e.output_path).ok().flatten().map_or(false, |p| path.ends_with(p.file_name().unwrap_or_default()))) else { continue };
+                let Ok(Ok(text)) = guarded(e.export_to_string) else { continue };
+                if path.parent().map_or(false, |p| std::fs::create_dir_all(p).is_ok()) && std::fs::write(path, text.as_bytes()).is_ok() {
+                    seeded_files += 1;
+                }
+            }
+        } else {
+            for (_file, group) in &groups {
+                let i = group[rng.below(group.len())];
+                let (Ok(Ok(text)), Some(path)) = (guarded(reg[i].export_to_string), guarded(reg[i].output_path).ok().flatten()) else { continue };
+                let Some(rel) = super::fsutil::norm_rel("bindings", &path.to_string_lossy()) else { continue };
+                let target = root.join(rel);
+                if target.parent().map_or(false, |p| std::fs::create_dir_all(p).is_ok()) && std::fs::write(&target, text.as_bytes()).is_ok() {
+                    seeded_files += 1;
+                }
+            }
+        }
+        let chunks: Vec<Vec<usize>> = (0..threads).map(|t| order.iter().copied().skip(t).step_by(threads).collect()).collect();
+        let barrier = Arc::new(Barrier::new(threads));
+        let errors: Vec<String> = std::thread::scope(|s| {
+            let hs: Vec<_> = chunks
+                .iter()
+                .map(|chunk| {
+                    let b = barrier.clone();
+                    s.spawn(move || {
+                        b.wait();
+                        let mut errs = vec![];
+                        for &i in chunk {
+                            match guarded(reg[i].export_all) {
+                                Ok(Ok(())) => {}
+                                other => errs.push(format!("{}: {other:?}", reg[i].id)),
+                            }
+                        }
+                        errs
+                    })
+                })
+                .collect();
+            hs.into_iter().flat_map(|h| h.join().unwrap_or_default()).collect()
+        });
+        let tree = files_only(&snapshot(&root));
+        let file_digests: std::collections::BTreeMap<&String, String> = tree.iter().map(|(p, b)| (p, digest(&String::from_utf8_lossy(b)))).collect();
+        let mut differing = vec![];
+        if let Some((_, t0)) = &first {
+            for (p, b) in &tree {
+                if t0.get(p) != Some(b) {
+                    differing.push(json!({"path": p, "now": String::from_utf8_lossy(b), "first": t0.get(p).map(|x| String::from_utf8_lossy(x).to_string())}));
+                }
+            }
+            differing.truncate(6);
+        }
+        log.emit(json!({"ev": "tree", "monitor": "C13", "threads": threads, "rep": format!("over-leftovers-{round}"), "files": tree.len(),
+            "digest": digest(&tree_json(&tree).to_string()), "file_digests": file_digests, "same_as_first_in_process": differing.is_empty(),
+            "differing": differing, "leftover_files_seeded": seeded_files,
+            "errors": errors.iter().take(5).collect::<Vec<_>>(), "n_errors": errors.len()}));
     }
     // mixed entry points: a fixed subset is exported alone (`export()`), another fixed subset with its dependencies
     // (`export_all()`); the operations run in seeded shuffled orders on 1, 4 and 16 threads. The resulting tree is a
